@@ -57,8 +57,9 @@ Interpretation notes (where the statement is silent or over-general, the oracle 
     undefined entries are masked.
   * "equals 1 for an RDM with itself" is only demanded of tau-a and rho-a for RDMs without ties: by their own definition
     (the other clause of the statement) tau-a(x,x) = 1 - tied/N < 1 and rho-a(x,x) < 1 when x has ties.
-  * the matrix-sigma_k path solves with conjugate gradients (default relative tolerance 1e-5): tolerance 2e-4 there,
-    1e-9 everywhere else (1e-6 for Bures: square roots of eigenvalues that are zero up to rounding).
+  * a given sigma_k is handled by a conjugate-gradient solve (default relative tolerance 1e-5; matrix sigma_k always, vector
+    sigma_k since /repo 3bf72402): tolerance 2e-4 whenever sigma_k is given, 1e-9 everywhere else (1e-6 for Bures: square
+    roots of eigenvalues that are zero up to rounding).  The sigma_k-vector defect is 3e-2..1e-1, far above that.
 
 NOT covered by this tier
   * "for all": bounded domains only (see the `domain` strings).
@@ -70,8 +71,9 @@ NOT covered by this tier
     are complete.
   * float32 inputs (results are float32 for some measures; the statement does not fix a precision).
 
-Known findings on the unchanged tree (own input_class each, see C03_findings.md):
-  sigma_k-vector (whitened / sigma-forms), degenerate-row-in-stack (degenerate-row), int-dtype,cosine (input-forms).
+Findings (own input_class each, see C03_findings.md):
+  sigma_k-vector (whitened / sigma-forms; present up to /repo 479ab603, repaired by /repo 3bf72402),
+  degenerate-row-in-stack (degenerate-row; open), int-dtype,cosine (input-forms; open).
 """
 import functools
 import itertools
@@ -442,7 +444,7 @@ def _spec_matrix(method, a, b, s=None):
 def _tol(method, sigma):
     if method in BURES:
         return TOL_BURES
-    if method in WHITENED and sigma is not None and np.ndim(sigma) == 2:
+    if method in WHITENED and sigma is not None:      # a given sigma_k (vector or matrix) is solved with conjugate gradients
         return TOL_CG
     return TOL
 
@@ -629,8 +631,8 @@ def orc_sigma_forms(case):
     if case['form'] == 'identity':
         c = 0.5 + 2 * rs.rand()
         base = _call(m, a, b, None)
-        for name, sg, tol in (('identity matrix', np.eye(n_cond), TOL_CG), ('vector of ones', np.ones(n_cond), TOL),
-                              (f'constant vector {c:.4f}', c * np.ones(n_cond), TOL),
+        for name, sg, tol in (('identity matrix', np.eye(n_cond), TOL_CG), ('vector of ones', np.ones(n_cond), TOL_CG),
+                              (f'constant vector {c:.4f}', c * np.ones(n_cond), TOL_CG),
                               (f'{c:.4f} * identity matrix', c * np.eye(n_cond), TOL_CG)):
             r = _diff(_call(m, a, b, sg), np.asarray(base, float), tol, f'{m}: sigma_k = {name} vs sigma_k omitted')
             if r:
@@ -957,7 +959,7 @@ def tier_c(run, thorough):
     bd = Bounded(run, 'C03/whitened', 'C03/compare/oracle/whitened-vs-literal-V',
                  'seeded stacks on %s conditions, sizes (2,3)/(3,1)/(1,2), value kinds real / positive / ties, sigma_k in %s, '
                  'cosine_cov and corr_cov, %d seeds; V built entry by entry from the contrast covariances; tolerance 1e-9 '
-                 '(2e-4 for 2-D sigma_k: conjugate gradients)' % (wconds, sigmas, 3 if thorough else 1),
+                 '(2e-4 when sigma_k is given: conjugate gradients)' % (wconds, sigmas, 3 if thorough else 1),
                  function='_cosine_cov_weighted')
     for seed in range(3 if thorough else 1):
         for n_cond in wconds:
